@@ -17,6 +17,14 @@ import (
 // guard accepted by allowEarly. It returns "" when so, else the reason.
 func everyIteration(p *core.Program, info *types.Info, body *ast.BlockStmt, s ast.Node,
 	allowCond func(cond ast.Expr, thenBranch bool) bool) string {
+	return everyIterationOf(p, info, body, s, allowCond, false)
+}
+
+// everyIterationOf is everyIteration; with whole set, the function body itself
+// counts as the iteration (the function is called once per element by its
+// caller), so conditions directly in the body are judged too.
+func everyIterationOf(p *core.Program, info *types.Info, body *ast.BlockStmt, s ast.Node,
+	allowCond func(cond ast.Expr, thenBranch bool) bool, whole bool) string {
 	// chain of enclosing nodes
 	var chain []ast.Node
 	ast.Inspect(body, func(n ast.Node) bool {
@@ -29,7 +37,7 @@ func everyIteration(p *core.Program, info *types.Info, body *ast.BlockStmt, s as
 		}
 		return n.Pos() <= s.Pos() && s.End() <= n.End()
 	})
-	inLoop := false
+	inLoop := whole
 	for i, n := range chain {
 		switch x := n.(type) {
 		case *ast.RangeStmt, *ast.ForStmt:
@@ -111,7 +119,13 @@ func everyIteration(p *core.Program, info *types.Info, body *ast.BlockStmt, s as
 			}
 		case *ast.CaseClause, *ast.CommClause:
 			if inLoop {
-				return fmt.Sprintf("it is inside a switch case (%s)", p.Rel(n.Pos()))
+				// the first clause of a tagless switch is an if
+				if cc, ok := n.(*ast.CaseClause); ok && i > 1 && len(cc.List) == 1 {
+					if sw, ok := chain[i-2].(*ast.SwitchStmt); ok && sw.Tag == nil && len(sw.Body.List) > 0 && sw.Body.List[0] == ast.Stmt(cc) && allowCond(cc.List[0], true) {
+						continue
+					}
+				}
+				return fmt.Sprintf("it is inside a switch case that is not taken for every element (%s)", p.Rel(n.Pos()))
 			}
 		}
 	}
@@ -141,13 +155,45 @@ func nilTestOnly(info *types.Info) func(ast.Expr, bool) bool {
 // that the statement itself uses (a guard for the presence of the very data the
 // statement works on), not of unrelated optional data.
 func nilTestOfOperands(info *types.Info, stmt ast.Node) func(ast.Expr, bool) bool {
+	return nilTestOfOperandsIn(info, nil, stmt)
+}
+
+// nilTestOfOperandsIn also counts, as operands of the statement, what the local
+// variables it uses were computed from inside body (a := *pl.Debit; t.Add(a)).
+func nilTestOfOperandsIn(info *types.Info, body *ast.BlockStmt, stmt ast.Node) func(ast.Expr, bool) bool {
 	used := map[string]bool{}
-	ast.Inspect(stmt, func(n ast.Node) bool {
-		if e, ok := n.(ast.Expr); ok {
-			used[types.ExprString(ast.Unparen(e))] = true
-		}
-		return true
-	})
+	vars := map[*types.Var]bool{}
+	var work []ast.Node
+	work = append(work, stmt)
+	for len(work) > 0 {
+		n := work[0]
+		work = work[1:]
+		ast.Inspect(n, func(n ast.Node) bool {
+			if e, ok := n.(ast.Expr); ok {
+				used[types.ExprString(ast.Unparen(e))] = true
+			}
+			if id, ok := n.(*ast.Ident); ok && body != nil {
+				if v, ok := info.Uses[id].(*types.Var); ok && !v.IsField() && !vars[v] && body.Pos() <= v.Pos() && v.Pos() <= body.End() {
+					vars[v] = true
+					ast.Inspect(body, func(m ast.Node) bool {
+						if as, ok := m.(*ast.AssignStmt); ok && as.End() <= stmt.Pos() {
+							for i, l := range as.Lhs {
+								if core.VarOf(info, l) == v {
+									if len(as.Lhs) == len(as.Rhs) {
+										work = append(work, as.Rhs[i])
+									} else {
+										work = append(work, as.Rhs[0])
+									}
+								}
+							}
+						}
+						return true
+					})
+				}
+			}
+			return true
+		})
+	}
 	var rec func(e ast.Expr) bool
 	rec = func(e ast.Expr) bool {
 		e = ast.Unparen(e)
